@@ -10,6 +10,14 @@ CHECKS = {
    technique="explicit-state BFS (stateright) over interval-set operation histories on the real Intervals<B> with every transition compared to an independent interval-list model; exhaustive type-pair x value enumeration for the lattice laws",
    text="(a) stateright breadth-first search over all histories of union_interval / intersection_interval / union / intersection / to_simple_superset / into_interval on the real Intervals<B> (B = i64, f64, String, bool), from empty, full and 125/126/127-interval seeds so that one or two steps cross the real capacity of 128; every transition is executed on the implementation and its result must be sorted, disjoint, within capacity and contain the exact result computed by an independent interval-list reference. Thorough runs to the fixpoint (all reachable states). (b) All ordered pairs of an enumerated universe of data types (all 21 variants, nesting depth <= 2) x a value universe: subset, union, intersection and own-type laws.",
    note="Trusted: the reference interval list (40 lines) and the reference membership functions (refm.rs). Cross-variant membership is taken modulo the library's own value conversion. Quick bounds the history depth to 5."),
+ "C10": dict(level="exploration", design="2/C10",
+   technique="bounded exhaustive enumeration: predicates up to depth 2/3 over an atom alphabet x struct types from the grids x every row of grid points; all join kinds x ON predicates x every row pair, on the real DataType::filter / Join builder",
+   text="Every predicate of the alphabet (comparisons in both operand orders, column-vs-column, IN lists, an unsupported arithmetic sub-term, NOT, all AND/OR pairs; thorough adds depth 3) is applied with the real DataType::filter to every struct type of the grid (intervals, unions, value sets, optional, int/float, text) and, for every row of grid points on which the predicate is true (library evaluator, cross-checked by an independent three-valued evaluator), the row must belong to the narrowed type. The same for the field types of Joins built with the real builder in all five kinds, including the NULL-padded rows of the preserved side.",
+   note="Trusted: reference membership, the independent evaluator (used only to refuse premises the library cannot evaluate). Values outside the grids are not explored."),
+ "C12": dict(level="exploration", design="2/C12",
+   technique="bounded exhaustive enumeration of ordered type pairs x all pairs of values of the source type, on the real into_data_type / as_data_type",
+   text="All ordered pairs (A,B) of an enumerated universe of data types (21 variants, depth <= 2, integers around 2^53 and at the i64 extremes, numeric value sets rendered to text) x all values of A from a value universe and all pairs of them: a convertible type converts every value into the converted type, distinct values stay distinct, same-shape reverse conversions return the original, lossy conversions (non-integral float to integer, out-of-range integer to boolean) are refused.",
+   note="Trusted: reference membership. Wrapping conversions into `any`-typed containers are excluded from the round-trip clause (no inverse exists)."),
 }
 NOT_YET = {}
 def main():
